@@ -3,6 +3,12 @@
 import json, os, re
 ROOT = os.path.dirname(os.path.dirname(os.path.abspath(__file__)))
 res = {}
+R67 = {}
+_p67 = os.path.join(ROOT, "seeded", "RESULTS_batches_6_7.tsv")
+if os.path.exists(_p67):
+    for _l in open(_p67).read().splitlines()[1:]:
+        _f = _l.split("\t")
+        R67[_f[0]] = _f
 p = os.path.join(ROOT, "seeded", "RESULTS.tsv")
 if os.path.exists(p):
     for line in open(p):
@@ -19,7 +25,9 @@ for s in sorted(os.listdir(os.path.join(ROOT, "seeded"))):
     first = re.sub(r"\s+", " ", notes.replace("#", "").replace("*", "")).strip()[:170]
     r = res.get(s)
     if r is None:
-        caught = "not run yet"
+        # batches run on a scratch copy of /repo/src (tools/run_seeds.py) instead of on /repo itself: seeded/RESULTS_batches_6_7.tsv
+        r67 = R67.get(s)
+        caught = "not run yet" if r67 is None else ("scratch-copy run: " + ("**caught** at first sight" if r67[2] == "caught" else "MISSED at first sight") + ("; " + r67[3] if len(r67) > 3 and r67[3] else ""))
     else:
         rc, v, u = r[2], (r[3] if len(r) > 3 else ""), (r[4] if len(r) > 4 else "")
         m2 = re.search(r"obligation=(\S+)", v)
